@@ -31,5 +31,6 @@ SPEC = {
                    "dictionary) on a valid file with symbolic payload: each answer is the chunk's slice / stored bytes with its size, whatever was requested before",
     "outside": ["sequences longer than 3, more than two data chunks", "real libzstd"],
     "assumptions": ["valid file (frame markers as written, verdict 1)", "validate_current_chunk replaced by a recorder (real body: h15u / C09)", "context as zck_read_header leaves it"],
+    "level_note": "request sequences, sizes and frame markers are concrete per harness instance, payload bytes symbolic (bounded model checking with concrete control shape; DESIGN.md section 7 explains why symbolic shapes cannot be encoded); valid files only",
     "harnesses": _I,
 }
